@@ -331,17 +331,24 @@ def coq_exec_compare(tag, cases, shard=200):
 
 # ---------------- entry points ----------------
 
+def store_size(st):
+    """number of variable occurrences in the expanded values (what the Coq side has to build)"""
+    return sum(c * (len(m) + 1) for v in st.values() for m, c in v.items())
+
+
 def run(ctx):
     vlib.import_pymwp()
     K = ctx.n(2, 3)
-    cap = ctx.n(60, 400)
-    n = ctx.n(150, 1500)
-    max_sites = ctx.n(4, 6)
+    cap = ctx.n(120, 400)
+    n = ctx.n(500, 3000)
+    max_sites = ctx.n(5, 6)
     progs = [(lab, src, None, None) for lab, src in CORPUS]
     for i in range(n):
         src, ss, vars_ = gen_prog.gen_function(ctx.rng, cfg_for(ctx.rng, max_sites))
         progs.append((f"gen{i}", src, ss, vars_))
     failing, mism = [], []
+    import time
+    t0 = time.time()
     status = {}
     tot = {"paths": 0, "vectors": 0, "checks": 0, "exhaustive": 0, "toobig": 0, "nonstrict_guard_checks": 0}
     exec_cases, model_cases, recs, samples = [], [], [], []
@@ -371,7 +378,7 @@ def run(ctx):
             for kk, pat in (("while", "'while'"), ("for", "'for'"), ("if", "'if'"), ("mul", "'*'")):
                 kinds[kk] += 1 if pat in txt else 0
             # correspondence material: the longest path and one random path of this program
-            runs = [r for r in ex["runs"] if sum(len(v) for v in r[1].values()) <= 400]
+            runs = [r for r in ex["runs"] if store_size(r[1]) <= 1500]
             if runs:
                 pick = [max(runs, key=lambda r: len(repr(r[0])))]
                 pick.append(ctx.rng.choice(runs))
@@ -397,9 +404,13 @@ def run(ctx):
         rest = exec_cases[len(CORPUS):]
         ctx.rng.shuffle(rest)
         exec_cases = head + rest[:lim - len(head)]
+    t1 = time.time()
     if ctx.coq_ok:
         mism += coq_exec_compare("c03", exec_cases)
+        t2 = time.time()
         mism += e2e.coq_compare("c03", model_cases)
+        t3 = time.time()
+        vlib.log(f"C03 timings: search {t1-t0:.1f}s, exec correspondence {t2-t1:.1f}s, model correspondence {t3-t2:.1f}s")
     else:
         mism.append("model not built: Exec.v / Analysis.v correspondence not run")
     analysed = status.get("ok", 0) + status.get("infinite", 0)
@@ -422,7 +433,7 @@ def run(ctx):
 def replay(ctx, data):
     vlib.import_pymwp()
     inp = data.get("input", data)
-    ex = examine(inp["src"], ctx.n(2, 3), ctx.n(60, 400), ctx.rng)
+    ex = examine(inp["src"], ctx.n(2, 3), ctx.n(120, 400), ctx.rng)
     return ex["failing"][0] if ex["failing"] else None
 
 
